@@ -106,18 +106,18 @@ type FuncVC struct {
 	globals map[string]Term
 	funcIDs map[string]int
 
-	assumed     map[string]bool // assumed contracts used (keys)
-	defaulted   map[string]bool // callees handled by the default contract
-	unsupported []string
-	notes       []string
-	callSiteN   map[string]int
-	defers      []*ssa.Defer
-	retN        int
+	assumed      map[string]bool // assumed contracts used (keys)
+	defaulted    map[string]bool // callees handled by the default contract
+	unsupported  []string
+	notes        []string
+	callSiteN    map[string]int
+	defers       []*ssa.Defer
+	retN         int
 	closureCells []Term
-	errs        []string
-	withFrame   bool
-	safety      bool
-	entryFacts  []Term
+	errs         []string
+	withFrame    bool
+	safety       bool
+	entryFacts   []Term
 }
 
 func NewFuncVC(P *Program, S *Specs, fn *ssa.Function, con *Contract) *FuncVC {
@@ -271,7 +271,7 @@ func (vc *FuncVC) setVersion(st *State, key string, t Term) {
 // memory model
 
 func (vc *FuncVC) fldAddr(base Term, idx int) Term { return App(SRef, "fld", base, IntLit(int64(idx))) }
-func (vc *FuncVC) elemAddr(base, idx Term) Term   { return App(SRef, "elem", base, idx) }
+func (vc *FuncVC) elemAddr(base, idx Term) Term    { return App(SRef, "elem", base, idx) }
 
 func isArraySort(s Sort) bool { return strings.HasPrefix(string(s), "(Array ") }
 
